@@ -103,3 +103,62 @@ Example C05_nonvacuous :
   let (s', r) := write_arrays KObj g (mkmd true None [] [] 0%Z) true false (init pre) in
   r = Err ValueError /\ s_root s' = pre /\ List.length (s_trace s') = 10%nat.
 Proof. cbn zeta. split; [cbn; auto|]. vm_compute. repeat split. Qed.
+
+(* ======================================================================================================================
+   EVERY WRITING ENTRY POINT (Entry.v: write_arrays, write_dicts / backend writers called directly, geff.write, from_ctc_to_geff
+   with its label-volume export, from_trackmate_xml_to_geff -- see props/C06.v).
+   ====================================================================================================================== *)
+From Geff Require Import Entry EntryLemmas.
+From Geff Require Ctc TrackMate Table TableLemmas.
+
+(* (a3)/(b3) ANY entry point, ANY pre-state (holding a geff or not, beside foreign members or not), ANY input (a dataset that does
+   not convert, a label volume that lands inside the target, ...), overwrite requested or not: if the own guard refuses, nothing was
+   touched (empty trace); otherwise every recorded state up to the commit of the new graph is unrecognised -- the deletion of the
+   old geff, the label volume written into the directory, the ids and property arrays -- and a call that raises ends unrecognised
+   (or, with an empty trace, on the untouched previous graph) *)
+Theorem C05_crash_entry : forall c pre,
+  let (s', r) := e_run c (init pre) in
+  new_ok (e_kind c) r (s_trace s') /\ (r <> Ok tt -> s_trace s' <> [] -> unrecognised (e_kind c) (s_root s')).
+Proof. exact entry_crash. Qed.
+Print Assumptions C05_crash_entry.
+
+(* the general fact behind it: whatever runs behind an overwrite guard, as long as it cannot make a root without geff attribute
+   look valid before it commits (safe_from), has the crash property from every pre-state *)
+Theorem C05_crash_guarded : forall k ov (m : M unit), safe_from k m -> forall pre,
+  let (s', r) := (overwrite_guard k ov ;; m)%M (init pre) in
+  new_ok k r (s_trace s') /\ (r <> Ok tt -> s_trace s' <> [] -> unrecognised k (s_root s')).
+Proof. exact guarded_crash. Qed.
+Print Assumptions C05_crash_guarded.
+
+(* a conversion that fails AFTER its guard deleted the old geff (dataset without nodes, unknown parent label, refused label volume,
+   the inner guard) leaves the cleaned location: no geff, every other member and attribute kept (C05_reject_frame) *)
+Theorem C05_failed_conversion : forall c s a ch,
+  e_two_guards c = true -> e_ready c = true -> e_ov c = true ->
+  s_root s = Some (ZG a ch) -> ahas "geff" a = true -> exists_geff (e_kind c) (cleaned (e_kind c) a ch) = true ->
+  exists tr, e_run c s = (mkst (cleaned (e_kind c) a ch) tr,
+                          Err (match e_conv c with Ok _ => FileExistsError | Err e => e end)).
+Proof. exact entry_overwrite_beside. Qed.
+Print Assumptions C05_failed_conversion.
+
+(* table export (two files): the pair of files is never half-written -- after any call it is the pair that was there or the
+   complete export (as repaired: before, an existing edges file made the call raise after the nodes file had been created) *)
+Theorem C05_csv_all_or_nothing : forall s g ov,
+  let r := Table.geff_to_csv s g ov in
+  (snd r <> Ok tt /\ fst r = s) \/
+  (snd r = Ok tt /\ fst r = Table.mkFs (Some (fst (Table.node_frame g))) (Some (fst (Table.edge_frame g)))).
+Proof. exact TableLemmas.csv_all_or_nothing. Qed.
+Print Assumptions C05_csv_all_or_nothing.
+
+(* non-vacuity: the CTC conversion of C06_entry_nonvacuous with the label volume inside the geff directory, onto a directory that
+   holds a geff beside a foreign group, overwrite=True: 4 recorded states (the three deletions of delete_geff, in whatever order it makes them; the volume
+   written), FileExistsError, the end state keeps the foreign group and the volume and is not a geff *)
+Example C05_entry_nonvacuous :
+  let d := Ctc.mkctc true (Some [Ctc.mkrow 1 0 1 0]) false [4%nat; 4%nat]
+             [[(1%Z, Ctc.mkcent 0 1024 2048)]; [(1%Z, Ctc.mkcent 0 1536 2048)]] ["out.geff"] (Ctc.SegPath ["out.geff"; "lab"]) false false true in
+  let vol := mkarr DU16 [2%nat; 1%nat; 1%nat] [1; 1]%Z in
+  let pre := Some (ZG [("geff", AGeff (Some (mkmd true None [] [] 0%Z)))]
+                      [("nodes", ZG [] [("ids", ZA (mkarr DU8 [0%nat] []))]); ("edges", ZG [] [("ids", ZA (mkarr DU8 [0%nat; 2%nat] []))]);
+                       ("seg", ZG [] [])]) in
+  let (s', r) := e_run (ECtc d vol) (init pre) in
+  r = Err FileExistsError /\ s_root s' = Some (ZG [] [("seg", ZG [] []); ("lab", ZA vol)]) /\ List.length (s_trace s') = 4%nat.
+Proof. cbn zeta. vm_compute. repeat split. Qed.
